@@ -1,6 +1,10 @@
 (* Extraction of the executable node model for the correspondence driver.
    ExtrOcamlBasic only: bool, option, list, prod, unit, sumbool map to OCaml's; nat, positive, N, Z stay Coq datatypes. *)
 From DbftV Require Import Model.
+From DbftV Require Quorum.
 Require Extraction. Require Import ExtrOcamlBasic.
 Extraction Language OCaml.
-Extraction "model.ml" step fresh_state mkCfg somes zlen.
+Definition quorum_F := Quorum.F.
+Definition quorum_M := Quorum.M.
+Definition quorum_primary := Quorum.primary.
+Extraction "model.ml" step fresh_state mkCfg somes zlen quorum_F quorum_M quorum_primary.
